@@ -434,6 +434,8 @@ static void case_poly(uint64_t seed) {
     if (out[2].n > out[1].n) vf_distinct(key);
     if (P.crosses_antimeridian) vf_add("polygons.antimeridian", 1);
     if (P.nholes) vf_add("polygons.with_holes", 1);
+    if (strstr(desc, "axis-aligned")) vf_add("polygons.axis_aligned", 1);
+    if (strstr(desc, "snapped")) vf_add("polygons.vertices_snapped_to_centre_coordinates", 1);
     vf_sample("poly %016" PRIx64 " (%s): FULL %" PRId64 " <= CENTER %" PRId64 " <= OVERLAPPING %" PRId64 " <= BBOX %" PRId64 " cells; bounds %" PRId64 "/%" PRId64 "/%" PRId64 "/%" PRId64, seed, desc, out[1].n, out[0].n, out[2].n, out[3].n, sz[1], sz[0], sz[2], sz[3]);
 done:
     for (int m = 0; m < 4; m++) free(out[m].a);
